@@ -161,7 +161,7 @@ Example c12_session_mode_nonvacuous :
   stmt_mismatch (run_mock_s ops_sess) = false /\ est_mismatch (run_mock_s ops_sess) = false /\
   dirty_handoff (run_mock_s ops_sess) = false /\
   List.length (filter (fun e => match e with EvSync 0 0 _ => true | _ => false end) (run_mock_s ops_sess)) = 1%nat /\
-  existsb (fun e => match e with EvClean 0 false true => true | _ => false end) (run_mock_s ops_sess) = true /\
+  existsb (fun e => match e with EvClean 0 false true false => true | _ => false end) (run_mock_s ops_sess) = true /\
   existsb (fun e => match e with
                     | EvStmt 0 0 true _ bv _ _ => opt_beq (nth 2 bv None) (Some (B "Europe/Paris")) && opt_beq (nth 4 bv None) (Some (B "sess'app"))
                     | _ => false end) (run_mock_s ops_sess) = true /\
@@ -197,6 +197,38 @@ Example c12_heterogeneous_servers :
                     | _ => false end) (run_het het_defs 1 false ops_het) = true /\
   existsb (fun e => match e with EvSync 1 0 d => beq (snd (hd ([], []) d)) (B "SQL, DMY") | _ => false end)
           (run_het het_defs 1 false ops_het) = true.
+Proof. vm_compute. repeat split; reflexivity. Qed.
+
+(** values that differ in letter case only are different values: two clients alternating on one
+    connection are re-synced every time *)
+Definition ops_case : list op :=
+  [OConnect 0 [u; (K_app, B "Billing"); (K_tz, B "UTC")]; OConnect 1 [u; (K_app, B "billing"); (K_tz, B "utc")];
+   OQuery 0 0 q1; OQuery 1 0 q1; OQuery 0 0 q1; OQuery 1 0 q1].
+Example c12_case_is_significant :
+  stmt_mismatch (run_mock ops_case) = false /\
+  List.length (filter (fun e => match e with EvSync _ _ d => Nat.eqb (List.length d) 2 | _ => false end) (run_mock ops_case)) = 4%nat.
+Proof. vm_compute. split; reflexivity. Qed.
+
+(** the cleanup flags are cleared by check-in only: DEALLOCATE ALL / DISCARD ALL / PREPARE after a SET (and a
+    SET ROLE, whose tag is SET too) do not make pgcat forget the SET; PREPARE adds DEALLOCATE ALL to the cleanup;
+    a SET after a COPY in the same query (the reply then comes in two pieces) is part of the client's map *)
+Definition ops_flags : list op :=
+  [OConnect 0 [u]; OConnect 1 [u];
+   OQuery 0 0 [SSet false (B "statement_timeout") (B "1"); SNoop TgSet; SNoop TgDeallocAll];
+   OQuery 1 0 q1;
+   OQuery 0 0 [SNoop TgPrepare; SNoop TgOther];
+   OQuery 1 0 q1;
+   OQuery 0 0 [SSet false K_date (B "German"); SNoop TgOther; SSet false K_tz (B "Mars")];
+   OQuery 1 0 q1; OQuery 0 0 q1;
+   OQuery 0 0 [SSet false (B "work_mem") (B "1"); SDiscardAll]; OQuery 1 0 q1].
+Example c12_flags_cleared_by_checkin_only :
+  dirty_handoff (run_mock ops_flags) = false /\ stmt_mismatch (run_mock ops_flags) = false /\
+  w_oos (run marker_valid (fun _ => MOCK_DEF) 0 is_unclean no_session ops_flags) = false /\
+  existsb (fun e => match e with EvClean 0 false true false => true | _ => false end) (run_mock ops_flags) = true /\
+  existsb (fun e => match e with EvClean 0 false false true => true | _ => false end) (run_mock ops_flags) = true /\
+  existsb (fun e => match e with
+                    | EvStmt 0 0 true _ bv _ _ => opt_beq (nth 1 bv None) (Some (B "German")) && opt_beq (nth 2 bv None) (Some (B "Mars"))
+                    | _ => false end) (run_mock ops_flags) = true.
 Proof. vm_compute. repeat split; reflexivity. Qed.
 
 (** D-invalid: a client whose startup packet carries a value the backend refuses for ONE tracked
